@@ -658,8 +658,15 @@ async fn c19_one(base: usize, seq: &[Mut]) -> Result<(), (String, String, String
                     return Err((at, format!("replaying the recorded operations gives {end:?}"), format!("the task the caller holds: {held:?}")));
                 }
                 rep.commit_operations(std::mem::take(&mut h.ops)).await.map_err(|e| (at.clone(), format!("commit failed: {e}"), "commit succeeds".into()))?;
+                // the task fetched the import way -- create_task on a task that exists -- right after the commit, before anything
+                // else has been read (cold cache): nothing is recorded, and (below) it is the stored task with the tags of the stored data
+                let mut none = Operations::new();
+                let via_create = rep.create_task(uuid, &mut none).await.map_err(|e| (at.clone(), format!("create_task failed: {e}"), "the existing task".into()))?;
                 let stored = rep.get_task(uuid).await.unwrap();
                 let got = stored.as_ref().map(|t| t.get_taskmap().clone());
+                if !none.is_empty() || Some(via_create.get_taskmap()) != got.as_ref() {
+                    return Err((at, format!("create_task on the existing task recorded {} operation(s) / returned {:?}", none.len(), via_create.get_taskmap()), format!("no operation, the stored task {got:?}")));
+                }
                 if got.as_ref() != Some(&held) {
                     return Err((at, format!("stored task {got:?}"), format!("identical to the task the caller held: {held:?}")));
                 }
@@ -680,6 +687,17 @@ async fn c19_one(base: usize, seq: &[Mut]) -> Result<(), (String, String, String
                 let want = has_dep && in_ws;
                 if listed != want {
                     return Err((at, format!("dependency map lists the edge: {listed}"), format!("{want} (task in the working set: {in_ws}, has the dep_ key: {has_dep}, target pending)")));
+                }
+                // ... and the synthetic tags that depend on it, whichever way the task object was obtained
+                let other = rep.get_task(uuid_of(2)).await.unwrap().expect("task 2");
+                for (how, t) in [("get_task", &h.task), ("create_task on the existing task", &via_create)] {
+                    let tag = |s: &str| t.has_tag(&s.parse::<Tag>().unwrap());
+                    if t.is_blocked() != want || tag("BLOCKED") != want || tag("UNBLOCKED") != !want {
+                        return Err((at, format!("via {how}: is_blocked {} BLOCKED {} UNBLOCKED {}", t.is_blocked(), tag("BLOCKED"), tag("UNBLOCKED")), format!("blocked = {want} (from the stored dep_ key, the working set and the target's status)")));
+                    }
+                }
+                if other.is_blocking() != want || other.has_tag(&"BLOCKING".parse::<Tag>().unwrap()) != want {
+                    return Err((at, format!("task 2 is_blocking {}", other.is_blocking()), format!("{want}")));
                 }
             }
             _ => {
